@@ -2,7 +2,7 @@
 
 A  Props/C30.v : C30_list_flatten, C30_list_op_in_order, C30_range_op_in_order,
                  C30_binary_op_fold_left(_pure), C30_binary_op_r_nested, C30_binary_op_r_flat,
-                 C30_binary_expr_fold_left, C30_calc_correct(_struct)
+                 C30_binary_expr_fold_left, C30_binary_expr_r_nested, C30_calc_correct(_struct)
 B  extracted helpers  vs  tpl.List/ListOp/RangeOp/BinaryOp/BinaryExpr on generated []any values:
    well-shaped results of R % sep (nested to depth 3), exhaustive small malformed shapes, random
    malformed shapes (panics compared as panics; RangeOp's partial call trace compared);
